@@ -1,13 +1,471 @@
 /-
 C02 — quarter and beat maps are exact, monotone and mutually inverse.
-(property theorems; under construction)
+
+Property theorems over Model/TimeMap.lean (the executable model of
+`Part._time_interpolator`, `beat_map`, `inv_beat_map`, `quarter_map`, `inv_quarter_map`,
+`quarter_duration_map`, `use_musical_beat`, `use_notated_beat`, `set_musical_beat_per_ts`).
+All theorems hold for every part (any number of quarter-duration changes and signatures,
+any rational query position); `WF` is the decidable side condition "at least two time
+points, positive divisions and signature numbers".
 -/
-import PartituraModel.Model.TimeMap
+import PartituraModel.Proofs.C02Part
+import PartituraModel.Proofs.C02Exact
 
 namespace C02
-open Model.TimeMap
+open Model.TimeMap C02Proofs
 
-/-- the default table is the documented one -/
-theorem default_musical_beats : Gen.MUSICAL_BEATS = [(6, 2), (9, 3), (12, 4)] := by decide
+/-! ### the example used for non-vacuity: three division changes, 6/8 → 5/4 → 2/2 away from the
+barlines, and a pickup of 4 divisions (2 eighths of a 6/8 bar) -/
+
+def exPart : Part :=
+  { npoints := 9, first := 0, last := 120,
+    qd := [(0, 4), (10, 6), (31, 5), (77, 12)],
+    ts := [⟨0, 6, 8, 2⟩, ⟨23, 5, 4, 5⟩, ⟨64, 2, 2, 2⟩],
+    m1 := some (0, 4), musical := false }
+
+example : WF exPart .notated ∧ WF exPart .quarter ∧ WF { exPart with musical := true } .musical := by decide
+
+example : (keypoints exPart .notated).map (·.t) = [0, 10, 23, 31, 64, 77, 120] := by decide +kernel
+
+theorem fwd_eq (p : Part) (m : Mode) (h : WF p m) (x : Rat) : fwd p m x = interp (finalKnots p m) x := by
+  unfold fwd
+  rw [if_neg (by have := h.1; omega)]
+
+theorem inv_eq (p : Part) (m : Mode) (h : WF p m) (y : Rat) : inv p m y = interp (swap (finalKnots p m)) y := by
+  unfold inv
+  rw [if_neg (by have := h.1; omega)]
+
+/-! ### exactness -/
+
+/-- **Segment formula / exactness on a stretch.**  Between two consecutive key points `k`, `k'`
+(no quarter-duration change and no signature start strictly between them) the map advances by
+`(b - a) * fac / divs`: `d` divisions under quarter duration `q = k.divs` last `d / q` quarters
+(`fac = 1`) and `(d / q) * fac` beats. -/
+theorem stretch_exact (p : Part) (m : Mode) (h : WF p m) (pre post : List KP) (k k' : KP)
+    (hk : keypoints p m = pre ++ k :: k' :: post) (a b : Rat)
+    (ha : (k.t : Rat) ≤ a) (hab : a ≤ b) (hb : b ≤ (k'.t : Rat)) :
+    ∃ ya yb, fwd p m a = some ya ∧ fwd p m b = some yb ∧ yb - ya = (b - a) * (k.fac / k.divs) := by
+  obtain ⟨pre', yk, post', hs, _⟩ := knots_split pre k k' post 0
+  have hok := knots0_ok p m h
+  rw [hk, hs] at hok
+  obtain ⟨ya, yb, h1, h2, h3⟩ :=
+    stretch_knots (pickupShift p m (knots (keypoints p m) 0)) pre' _ yk _ _ post' hok a b ha hab hb
+  refine ⟨ya, yb, ?_, ?_, ?_⟩
+  · rw [fwd_eq p m h]; unfold finalKnots; simp only; rw [hk, hs]; rw [hk, hs] at h1; exact h1
+  · rw [fwd_eq p m h]; unfold finalKnots; simp only; rw [hk, hs]; rw [hk, hs] at h2; exact h2
+  · rw [h3]
+    have hadj := knotsOK_adjacent pre' _ yk _ _ post' hok
+    have hkm : k ∈ keypoints p m := by rw [hk]; simp
+    have hd : 0 < k.divs := ((keypoints_ok p m h).1.2 k hkm).1
+    have h1 : ((k'.t : Int) : Rat) - (k.t : Rat) ≠ 0 := by linarith [hadj.1]
+    have h2 : k.divs ≠ 0 := ne_of_gt hd
+    congr 1
+    field_simp
+    ring
+
+example : ∃ pre post k k', keypoints exPart .notated = pre ++ k :: k' :: post ∧ k.t = 23 ∧ k'.t = 31 ∧
+    k.divs = 6 ∧ k.fac = 1 := by
+  refine ⟨[⟨0, 4, 2⟩, ⟨10, 6, 2⟩], [⟨64, 5, 1/2⟩, ⟨77, 12, 1/2⟩, ⟨120, 12, 1/2⟩], ⟨23, 6, 1⟩, ⟨31, 5, 1⟩, ?_⟩
+  decide +kernel
+
+/-- **Exactness over any interval.**  For `a ≤ b` the map advances by the sum, over all stretches
+between consecutive key points (on each of which the quarter duration `divs` and the beat factor
+`fac` are constant), of the length of the part of `[a, b]` inside the stretch times `fac / divs`:
+`Σ (v - u) / q` quarters, `Σ (v - u) / q * (beat_type / 4) [* musical_beats / beats]` beats. -/
+theorem fwd_exact (p : Part) (m : Mode) (h : WF p m) (a b ya yb : Rat) (hab : a ≤ b)
+    (ha : fwd p m a = some ya) (hb : fwd p m b = some yb) :
+    yb - ya = elapsed (keypoints p m) a b := by
+  rw [fwd_eq p m h] at ha hb
+  unfold finalKnots at ha hb
+  simp only at ha hb
+  rw [interp_shift _ _ (knots0_ok p m h)] at ha hb
+  obtain ⟨hok, hlen⟩ := keypoints_ok p m h
+  cases hva : interp (knots (keypoints p m) 0) a with
+  | none => rw [hva] at ha; cases ha
+  | some va =>
+    cases hvb : interp (knots (keypoints p m) 0) b with
+    | none => rw [hvb] at hb; cases hb
+    | some vb =>
+      rw [hva] at ha
+      rw [hvb] at hb
+      simp only [Option.map_some, Option.some.injEq] at ha hb
+      obtain ⟨k, rest, hk, hka, ea⟩ := interp_elapsed _ 0 a va hok hlen hva
+      obtain ⟨k2, rest2, hk2, _, eb⟩ := interp_elapsed _ 0 b vb hok hlen hvb
+      rw [hk] at hk2
+      injection hk2 with e1 e2
+      subst e1
+      have hfrom : AllFrom (k.t : Rat) (keypoints p m) := by
+        rw [hk]
+        intro q hq
+        rcases List.mem_cons.mp hq with hq | hq
+        · subst hq; exact le_refl _
+        · exact kps_tail_from k rest (hk ▸ hok) q hq
+      have := elapsed_diff (keypoints p m) (k.t : Rat) a b hok hfrom hab
+      rw [← this, ← ha, ← hb, ea, eb]
+      ring
+
+example : elapsed (keypoints exPart .notated) 4 100 = 497/30 + 23/12 * (1/2) := by decide +kernel
+
+/-- the quarter duration used on the stretch starting at a key point is the one IN FORCE there:
+the value of the latest `set_quarter_duration` at or before it (1 if there is none) -/
+theorem keypoint_divs_inforce (p : Part) (m : Mode) (kp : KP) (h : kp ∈ keypoints p m) :
+    InForce (qdAssign p.qd) 1 kp.t kp.divs := by
+  have hm : (kp.t, kp.divs) ∈ carry1 (qdAssign p.qd) (keyTimes p m) 1 := by
+    rw [← carry_divs (qdAssign p.qd) (facAssign m p.ts) (keyTimes p m) 1 1]
+    exact List.mem_map.mpr ⟨kp, h, rfl⟩
+  exact carried_inforce _ _ (keyTimes_pairwise p m) (keyTimes_contains_qd p m) _ hm
+
+/-- the beat factor used on the stretch starting at a key point is that of the signature IN FORCE
+there: the latest signature starting at or before it (one beat per quarter if there is none) -/
+theorem keypoint_fac_inforce (p : Part) (m : Mode) (kp : KP) (h : kp ∈ keypoints p m) :
+    InForce (facAssign m p.ts) 1 kp.t kp.fac := by
+  have hm : (kp.t, kp.fac) ∈ carry1 (facAssign m p.ts) (keyTimes p m) 1 := by
+    rw [← carry_fac (qdAssign p.qd) (facAssign m p.ts) (keyTimes p m) 1 1]
+    exact List.mem_map.mpr ⟨kp, h, rfl⟩
+  exact carried_inforce _ _ (keyTimes_pairwise p m) (keyTimes_contains_ts p m) _ hm
+
+/-- what a signature assigns: `beat_type/4` beats per quarter, times `musical_beats/beats` in
+musical-beat mode; every assigned factor comes from a signature of the part -/
+theorem factor_values (s : TSig) :
+    factorOf .notated s = (s.beatType : Rat) / 4 ∧
+    factorOf .musical s = (s.beatType : Rat) / 4 * ((s.mb : Rat) / (s.beats : Rat)) := ⟨rfl, rfl⟩
+
+theorem fac_assigned_by_signature (m : Mode) (ts : List TSig) (t : Int) (v : Rat)
+    (h : lastAssoc (facAssign m ts) t = some v) : ∃ s ∈ ts, s.t = t ∧ v = factorOf m s := by
+  have hm := lastAssoc_mem _ t v h
+  cases m with
+  | quarter => simp [facAssign] at hm
+  | notated =>
+    simp only [facAssign] at hm
+    obtain ⟨s, hs, he⟩ := List.mem_map.mp hm
+    simp only [Prod.mk.injEq] at he
+    exact ⟨s, hs, he.1, he.2.symm⟩
+  | musical =>
+    simp only [facAssign] at hm
+    obtain ⟨s, hs, he⟩ := List.mem_map.mp hm
+    simp only [Prod.mk.injEq] at he
+    exact ⟨s, hs, he.1, he.2.symm⟩
+
+/-- in the quarter map every stretch of `d` divisions lasts exactly `d / q` quarters -/
+theorem quarter_fac_one (p : Part) (kp : KP) (h : kp ∈ keypoints p .quarter) : kp.fac = 1 := by
+  rcases keypoint_fac_inforce p .quarter kp h with ⟨s, _, hv, _⟩ | ⟨hv, _⟩
+  · simp [facAssign, lastAssoc] at hv
+  · exact hv
+
+/-- **No jump at a change point.**  Across a key point `k'` (a quarter-duration change and/or a
+signature start) the map is continuous: the advance from `a` before it to `b` after it is the sum
+of the two partial stretches, each at its own rate. -/
+theorem continuous_at_change (p : Part) (m : Mode) (h : WF p m) (pre post : List KP) (k k' k'' : KP)
+    (hk : keypoints p m = pre ++ k :: k' :: k'' :: post) (a b : Rat)
+    (ha : (k.t : Rat) ≤ a) (ha' : a ≤ (k'.t : Rat)) (hb : (k'.t : Rat) ≤ b) (hb' : b ≤ (k''.t : Rat)) :
+    ∃ ya yb, fwd p m a = some ya ∧ fwd p m b = some yb ∧
+      yb - ya = ((k'.t : Rat) - a) * (k.fac / k.divs) + (b - (k'.t : Rat)) * (k'.fac / k'.divs) := by
+  obtain ⟨ya, yc, h1, h2, h3⟩ := stretch_exact p m h pre (k'' :: post) k k' hk a _ ha ha' (le_refl _)
+  have hk2 : keypoints p m = (pre ++ [k]) ++ k' :: k'' :: post := by rw [hk]; simp
+  obtain ⟨yc', yb, h4, h5, h6⟩ := stretch_exact p m h (pre ++ [k]) post k' k'' hk2 _ b (le_refl _) hb hb'
+  rw [h2] at h4
+  injection h4 with h4
+  subst h4
+  exact ⟨ya, yb, h1, h5, by linarith⟩
+
+/-! ### monotonicity -/
+
+/-- defined (not NaN) on the whole timeline -/
+theorem fwd_defined (p : Part) (m : Mode) (h : WF p m) (x : Rat)
+    (h0 : (p.first : Rat) ≤ x) (h1 : x ≤ (p.last : Rat)) : ∃ y, fwd p m x = some y := by
+  rw [fwd_eq p m h]
+  have hok := finalKnots_ok p m h
+  have hxs := finalKnots_xs p m
+  have hf : (p.first : Rat) ∈ (finalKnots p m).map (·.1) := by
+    rw [hxs]; exact List.mem_map.mpr ⟨p.first, first_mem_keyTimes p m, rfl⟩
+  have hl : (p.last : Rat) ∈ (finalKnots p m).map (·.1) := by
+    rw [hxs]; exact List.mem_map.mpr ⟨p.last, last_mem_keyTimes p m, rfl⟩
+  have r1 := knot_mem_range _ hok _ hf
+  have r2 := knot_mem_range _ hok _ hl
+  exact interp_defined _ hok x (by linarith [r1.1]) (by linarith [r2.2])
+
+/-- **Strictly increasing** wherever defined -/
+theorem fwd_strictMono (p : Part) (m : Mode) (h : WF p m) (a b ya yb : Rat) (hab : a < b)
+    (ha : fwd p m a = some ya) (hb : fwd p m b = some yb) : ya < yb := by
+  rw [fwd_eq p m h] at ha hb
+  exact interp_strictMono _ (finalKnots_ok p m h) a b ya yb hab ha hb
+
+/-- hence **non-decreasing** (also across every change point) -/
+theorem fwd_mono (p : Part) (m : Mode) (h : WF p m) (a b ya yb : Rat) (hab : a ≤ b)
+    (ha : fwd p m a = some ya) (hb : fwd p m b = some yb) : ya ≤ yb := by
+  rcases lt_or_eq_of_le hab with hlt | heq
+  · exact (fwd_strictMono p m h a b ya yb hlt ha hb).le
+  · subst heq
+    rw [ha] at hb
+    injection hb with hb
+    exact hb.le
+
+example : fwd exPart .notated 22 = some 7 ∧ fwd exPart .notated 23 = some (22/3) ∧
+    fwd exPart .notated 24 = some (15/2) := by decide +kernel
+
+/-! ### inverse maps -/
+
+/-- **The inverse map undoes the forward map** at every position where the forward map is defined,
+in particular at every position of the timeline (`fwd_defined`) -/
+theorem inv_fwd (p : Part) (m : Mode) (h : WF p m) (x y : Rat) (hx : fwd p m x = some y) :
+    inv p m y = some x := by
+  rw [fwd_eq p m h] at hx
+  rw [inv_eq p m h]
+  exact interp_inv _ (finalKnots_ok p m h) x y hx
+
+/-- and the forward map undoes the inverse map on the image -/
+theorem fwd_inv (p : Part) (m : Mode) (h : WF p m) (x y : Rat) (hy : inv p m y = some x) :
+    fwd p m x = some y := by
+  rw [inv_eq p m h] at hy
+  rw [fwd_eq p m h]
+  have := interp_inv _ (knotsOK_swap _ (finalKnots_ok p m h)) y x hy
+  rwa [swap_swap] at this
+
+theorem inv_fwd_on_timeline (p : Part) (m : Mode) (h : WF p m) (x : Rat)
+    (h0 : (p.first : Rat) ≤ x) (h1 : x ≤ (p.last : Rat)) :
+    ∃ y, fwd p m x = some y ∧ inv p m y = some x := by
+  obtain ⟨y, hy⟩ := fwd_defined p m h x h0 h1
+  exact ⟨y, hy, inv_fwd p m h x y hy⟩
+
+example : inv exPart .notated (15/2) = some 24 ∧ inv exPart .quarter 0 = some 4 := by decide +kernel
+
+/-- the four public maps are these functions (beat maps in the mode the part is switched to) -/
+theorem public_maps (p : Part) :
+    beatMap p = fwd p (beatMode p) ∧ invBeatMap p = inv p (beatMode p) ∧
+    quarterMap p = fwd p .quarter ∧ invQuarterMap p = inv p .quarter ∧
+    beatMode p = (if p.musical then Mode.musical else Mode.notated) := ⟨rfl, rfl, rfl, rfl, rfl⟩
+
+/-- a part with fewer than two time points: every position maps to 0, and 0 maps back to the only
+time point (repaired behaviour, fix C02-2) -/
+theorem single_point (p : Part) (m : Mode) (h : p.npoints = 1) (x : Rat) :
+    fwd p m x = some 0 ∧ inv p m 0 = some (p.first : Rat) := by
+  unfold fwd inv
+  simp [h]
+
+/-! ### origin -/
+
+/-- the pickup test of the code: a first measure `(first, e)` with a signature starting at the first
+point, whose length `a` in the unit of the map is smaller than a bar of that signature -/
+def Pickup (p : Part) (m : Mode) (e : Int) (a : Rat) : Prop :=
+  p.m1 = some (p.first, e) ∧ actualDur (knots (keypoints p m) 0) (p.first, e) = some a ∧
+  ∃ s, p.ts.find? (fun s => s.t = p.first) = some s ∧ a < normalDur m s
+
+theorem pickupShift_of_pickup (p : Part) (m : Mode) (e : Int) (a : Rat) (h : Pickup p m e a) :
+    pickupShift p m (knots (keypoints p m) 0) = a := by
+  obtain ⟨h1, h2, s, h3, h4⟩ := h
+  unfold pickupShift
+  simp only [h1, h2, h3, if_pos h4]
+
+/-- **With a pickup, the end of the pickup measure (= start of the first full measure) carries the
+value the un-shifted map has at the first time point.** -/
+theorem pickup_end_value (p : Part) (m : Mode) (h : WF p m) (e : Int) (a : Rat) (hp : Pickup p m e a) :
+    ∃ v0, interp (knots (keypoints p m) 0) (p.first : Rat) = some v0 ∧ fwd p m (e : Rat) = some v0 := by
+  have hs := pickupShift_of_pickup p m e a hp
+  obtain ⟨_, h2, _⟩ := hp
+  obtain ⟨v0, v1, h3, h4, h5⟩ := actualDur_some _ _ _ _ h2
+  refine ⟨v0, h3, ?_⟩
+  rw [fwd_eq p m h]
+  unfold finalKnots
+  simp only
+  rw [hs, interp_shift _ _ (knots0_ok p m h), h4]
+  simp only [Option.map_some, Option.some.injEq]
+  linarith
+
+/-- **Origin with a pickup** (partial: needs `hfirst`, "no key point lies before the first time
+point", i.e. the part does not start later than time 0 where the initial quarter duration is stored —
+open finding F-C02-1): zero lies at the start of the first full measure. -/
+theorem origin_pickup_partial (p : Part) (m : Mode) (h : WF p m) (e : Int) (a : Rat) (hp : Pickup p m e a)
+    (hfirst : (keyTimes p m).head? = some p.first) : fwd p m (e : Rat) = some 0 := by
+  obtain ⟨v0, h1, h2⟩ := pickup_end_value p m h e a hp
+  have hf := interp_first _ (knots0_ok p m h)
+  obtain ⟨hx, hy⟩ := firstX_knots0 p m p.first hfirst
+  rw [hx, hy, h1] at hf
+  injection hf with hf
+  rw [h2, hf]
+
+/-- **Origin without a pickup** (partial, same extra hypothesis): zero lies at the first time point. -/
+theorem origin_plain_partial (p : Part) (m : Mode) (h : WF p m)
+    (hno : pickupShift p m (knots (keypoints p m) 0) = 0)
+    (hfirst : (keyTimes p m).head? = some p.first) : fwd p m (p.first : Rat) = some 0 := by
+  rw [fwd_eq p m h]
+  unfold finalKnots
+  simp only
+  rw [hno, interp_shift _ _ (knots0_ok p m h)]
+  have hf := interp_first _ (knots0_ok p m h)
+  obtain ⟨hx, hy⟩ := firstX_knots0 p m p.first hfirst
+  rw [hx, hy] at hf
+  rw [hf]
+  simp
+
+/-- what holds for EVERY part without a pickup: zero lies at the first key point -/
+theorem origin_first_key (p : Part) (m : Mode) (h : WF p m) (t0 : Int)
+    (hno : pickupShift p m (knots (keypoints p m) 0) = 0)
+    (hkey : (keyTimes p m).head? = some t0) : fwd p m (t0 : Rat) = some 0 := by
+  rw [fwd_eq p m h]
+  unfold finalKnots
+  simp only
+  rw [hno, interp_shift _ _ (knots0_ok p m h)]
+  have hf := interp_first _ (knots0_ok p m h)
+  obtain ⟨hx, hy⟩ := firstX_knots0 p m t0 hkey
+  rw [hx, hy] at hf
+  rw [hf]
+  simp
+
+/-- the extra hypothesis holds whenever nothing is stored before the first time point, e.g. for every
+part whose first time point is 0 (times are never negative) -/
+theorem first_key_is_first_point (p : Part) (m : Mode) (hl : p.first ≤ p.last)
+    (hq : ∀ e ∈ p.qd, p.first ≤ e.1) (ht : ∀ s ∈ p.ts, p.first ≤ s.t) :
+    (keyTimes p m).head? = some p.first := by
+  have hmem := first_mem_keyTimes p m
+  have hp := keyTimes_pairwise p m
+  have hall : ∀ x ∈ keyTimes p m, p.first ≤ x := by
+    intro x hx
+    unfold keyTimes at hx
+    rw [mem_sortedKeys] at hx
+    simp only [List.mem_cons, List.mem_append, List.mem_map] at hx
+    rcases hx with hx | hx | ⟨e, he, hx⟩ | ⟨e, he, hx⟩
+    · omega
+    · omega
+    · unfold qdAssign at he
+      obtain ⟨e', he', rfl⟩ := List.mem_map.mp he
+      have := hq e' he'
+      simp only at hx
+      omega
+    · cases m with
+      | quarter => simp [facAssign] at he
+      | notated =>
+        simp only [facAssign] at he
+        obtain ⟨s, hs, rfl⟩ := List.mem_map.mp he
+        have := ht s hs
+        simp only at hx
+        omega
+      | musical =>
+        simp only [facAssign] at he
+        obtain ⟨s, hs, rfl⟩ := List.mem_map.mp he
+        have := ht s hs
+        simp only at hx
+        omega
+  cases hk : keyTimes p m with
+  | nil => rw [hk] at hmem; simp at hmem
+  | cons a as =>
+    rw [hk] at hmem hp hall
+    have h1 := hall a List.mem_cons_self
+    have h2 : a ≤ p.first := head_le_of_pairwise (a :: as) a hp rfl p.first hmem
+    simp only [List.head?_cons, Option.some.injEq]
+    omega
+
+example : Pickup exPart .notated 4 2 := by
+  refine ⟨rfl, by decide +kernel, ⟨0, 6, 8, 2⟩, by decide +kernel, by decide +kernel⟩
+
+example : (keyTimes exPart .notated).head? = some exPart.first := by decide +kernel
+
+example : fwd exPart .notated 4 = some 0 ∧ fwd exPart .quarter 4 = some 0 ∧ fwd exPart .notated 0 = some (-2) := by
+  decide +kernel
+
+/-- a part that starts at time 8 (open finding F-C02-1): 3/4 from 8, first measure 8..20 (a full bar) -/
+def lateStart : Part :=
+  { npoints := 4, first := 8, last := 40, qd := [(0, 4)], ts := [⟨8, 3, 4, 3⟩],
+    m1 := some (8, 20), musical := false }
+
+/-- the un-restricted origin statement is FALSE for the current code: without a pickup, the map is
+not zero at the first time point of a part that starts later than time 0 -/
+theorem origin_late_start_counterexample :
+    WF lateStart .notated ∧ pickupShift lateStart .notated (knots (keypoints lateStart .notated) 0) = 0 ∧
+    fwd lateStart .notated (lateStart.first : Rat) = some 2 ∧ fwd lateStart .notated 0 = some 0 := by
+  decide +kernel
+
+/-- and with a pickup (first measure 8..12, one beat of a 3/4 bar) zero is not at the start of the
+first full measure either -/
+theorem origin_late_pickup_counterexample :
+    Pickup { lateStart with m1 := some (8, 12) } .notated 12 1 ∧
+    fwd { lateStart with m1 := some (8, 12) } .notated 12 = some 2 := by
+  refine ⟨⟨rfl, by decide +kernel, ⟨8, 3, 4, 3⟩, by decide +kernel, by decide +kernel⟩, by decide +kernel⟩
+
+/-! ### quarter_duration_map -/
+
+/-- **`quarter_duration_map(t)` is the quarter duration in force at `t`**: the value of the last
+change at or before `t` (the change times are kept strictly increasing by `set_quarter_duration`) -/
+theorem qdMap_inforce (qd pre post : List (Int × Nat)) (e : Int × Nat) (t : Rat)
+    (hs : (qd.map (·.1)).Pairwise (· < ·)) (hq : qd = pre ++ e :: post)
+    (h1 : (e.1 : Rat) ≤ t) (h2 : ∀ x ∈ post, t < (x.1 : Rat)) : qdMap qd t = some e.2 := by
+  subst hq
+  have hpre : ∀ x ∈ pre, (x.1 : Rat) ≤ t := by
+    intro x hx
+    rw [List.map_append, List.pairwise_append] at hs
+    have : x.1 < e.1 := hs.2.2 x.1 (List.mem_map.mpr ⟨x, hx, rfl⟩) e.1 (by simp)
+    have : (x.1 : Rat) < (e.1 : Rat) := by exact_mod_cast this
+    linarith
+  cases pre with
+  | nil =>
+    obtain ⟨e1, e2⟩ := e
+    simp only [List.nil_append, qdMap]
+    rw [prevValue_before e2 t post h2]
+  | cons x pre' =>
+    obtain ⟨x1, x2⟩ := x
+    simp only [List.cons_append, qdMap]
+    rw [prevValue_spec t e post h1 h2 pre' x2 (fun y hy => hpre y (List.mem_cons_of_mem _ hy))]
+
+/-- before the first change the first value is returned -/
+theorem qdMap_before (q0 : Int × Nat) (rest : List (Int × Nat)) (t : Rat)
+    (h : ∀ x ∈ rest, t < (x.1 : Rat)) : qdMap (q0 :: rest) t = some q0.2 := by
+  obtain ⟨a, b⟩ := q0
+  simp only [qdMap]
+  rw [prevValue_before b t rest h]
+
+example : qdMap exPart.qd 30 = some 6 ∧ qdMap exPart.qd 31 = some 5 ∧ qdMap exPart.qd (-3) = some 4 ∧
+    qdMap exPart.qd 1000 = some 12 := by decide +kernel
+
+/-! ### musical-beat switches -/
+
+/-- the regenerated default table: 6 → 2, 9 → 3, 12 → 4, every other numerator is its own number of
+musical beats -/
+theorem defaultMB_values : Gen.MUSICAL_BEATS = [(6, 2), (9, 3), (12, 4)] ∧
+    ∀ b, defaultMB b = if b = 6 then 2 else if b = 9 then 3 else if b = 12 then 4 else b := by
+  refine ⟨by decide, ?_⟩
+  intro b
+  unfold defaultMB Gen.MUSICAL_BEATS
+  by_cases h6 : b = 6
+  · subst h6; rfl
+  · by_cases h9 : b = 9
+    · subst h9; rfl
+    · by_cases h12 : b = 12
+      · subst h12; rfl
+      · have e6 : ¬ (6 = b) := fun h => h6 h.symm
+        have e9 : ¬ (9 = b) := fun h => h9 h.symm
+        have e12 : ¬ (12 = b) := fun h => h12 h.symm
+        simp [List.find?, h6, h9, h12, e6, e9, e12]
+
+/-- a new signature carries the default -/
+theorem addTS_default (s : BeatState) (t : Int) (b bt : Nat) :
+    step s (.addTS t b bt) = { s with ts := s.ts ++ [⟨t, b, bt, defaultMB b⟩] } := rfl
+
+/-- `set_musical_beat_per_ts` leaves time, beats and beat type alone and stores the user's value for
+`beats/beat_type` when the table has it, the default otherwise -/
+theorem assignMB_spec (tbl : List ((Nat × Nat) × Nat)) (s : TSig) :
+    (assignMB tbl s).t = s.t ∧ (assignMB tbl s).beats = s.beats ∧ (assignMB tbl s).beatType = s.beatType ∧
+    (assignMB tbl s).mb = (userMB tbl s.beats s.beatType).getD (defaultMB s.beats) := by
+  unfold assignMB
+  cases h : userMB tbl s.beats s.beatType <;> simp
+
+/-- `use_musical_beat(tbl)` on a part in notated mode switches the mode and applies a non-empty table
+to every signature present; with an empty table the stored values are kept -/
+theorem useMusical_spec (s : BeatState) (tbl : List ((Nat × Nat) × Nat)) (h : s.musical = false) :
+    step s (.useMusical tbl) =
+      ⟨true, if tbl.isEmpty then s.ts else s.ts.map (assignMB tbl)⟩ := by
+  simp [step, h]
+
+/-- `use_notated_beat()` on a part in musical mode switches back and resets every signature to the
+default; the switches are idempotent (a second call changes nothing) -/
+theorem useNotated_spec (s : BeatState) :
+    (s.musical = true → step s .useNotated = ⟨false, s.ts.map (assignMB [])⟩) ∧
+    (s.musical = false → step s .useNotated = s) ∧
+    (s.musical = true → ∀ tbl, step s (.useMusical tbl) = s) := by
+  refine ⟨fun h => by simp [step, h], fun h => by simp [step, h], fun h tbl => by simp [step, h]⟩
+
+theorem assignMB_empty (s : TSig) : (assignMB [] s).mb = defaultMB s.beats := by
+  simp [assignMB, userMB]
+
+example : (runOps [.addTS 0 6 8, .addTS 23 5 4, .useMusical [((5, 4), 2)], .addTS 64 12 8]).ts.map (·.mb)
+    = [2, 2, 4] := by decide
 
 end C02
